@@ -28,6 +28,9 @@ def settings_space(tier: str) -> List[Tuple[str, dict]]:
                 if via == "global":
                     name += "(global)"
                 out.append((name, {"exclude_defaults": xd, "exclude_none": xn, "aliaser": camel if al else None, "additional_properties": ap, "via": via}))
+    # every class / TypedDict described in $defs (schema-only option: it must not change validity)
+    for name, xd, al, ap in (("ap+all_refs", False, False, True), ("xd+camel+all_refs", True, True, False), ("all_refs", False, False, False)):
+        out.append((name, {"exclude_defaults": xd, "exclude_none": False, "aliaser": camel if al else None, "additional_properties": ap, "via": "param", "all_refs": True}))
     return out
 
 
@@ -194,7 +197,7 @@ def run(report, tier: str, seed: int, log_name: str = "serialized_data_validates
     space = settings_space(tier)
     log = report.driver(
         log_name,
-        bound=f"the C04 type pool ({len(pool)} descriptions incl. field, registered and {len(SP.DYNS)} dynamic conversions) and value generator x {len(space)} settings: global exclude_defaults x global exclude_none x aliaser (none / camelCase) x additional_properties, given as parameters or as global settings; each value serialized with exclude_unset=False and, when nothing is dropped by unset-tracking, with the default exclude_unset",
+        bound=f"the C04 type pool ({len(pool)} descriptions incl. field, registered and {len(SP.DYNS)} dynamic conversions) and value generator x {len(space)} settings: global exclude_defaults x global exclude_none x aliaser (none / camelCase) x additional_properties, given as parameters or as global settings, plus 3 settings with all_refs=True; each value serialized with exclude_unset=False and, when nothing is dropped by unset-tracking, with the default exclude_unset",
     )
     log.rule(
         "case = (type description, settings, value); contract: jsonschema.Draft202012Validator(serialization_schema(T, aliaser, additional_properties, conversion)).is_valid(serialize(T, v, same settings)) with exclude_defaults / exclude_none set in settings.serialization for both calls; the generated schema must itself be a valid 2020-12 schema; for classes, the aliased names of serialized methods and init=False fields must be declared in `properties`. Values whose image violates a declared schema(...) constraint are not values of the type and are skipped. Distinct by the triple; non-trivial when the value is not a bare primitive"
@@ -234,7 +237,7 @@ def run(report, tier: str, seed: int, log_name: str = "serialized_data_validates
                 if isinstance(td, S.Dyn):
                     ckw["conversion"] = S.conversion_object(td.conv, realm)
                 try:
-                    schema = serialization_schema(tp, **ckw)
+                    schema = serialization_schema(tp, **ckw, **({"all_refs": True} if st.get("all_refs") else {}))
                     jsonschema.Draft202012Validator.check_schema(schema)
                     validator = jsonschema.Draft202012Validator(schema)
                 except Exception as e:
